@@ -134,6 +134,10 @@ func genLattice(g *Rng, idx uint64) *Plan {
 	if g.Bool(0.1) {
 		spec.QualAttrs = winNSDecls(g, x) // the same names and instants as extension attributes in a foreign namespace, signed by the IdP
 	}
+	if g.Bool(0.3) {
+		// the IdP's own session ends hours later (SessionNotOnOrAfter): that is about the IdP's session, not about this assertion's windows
+		spec.Assertions[0].SessionNOA = i64(x + Pick(g, int64(8*3_600_000), 86_400_000, 60_000))
+	}
 	st.Spec = spec
 	return &Plan{Knobs: mustJSON(k), Steps: []json.RawMessage{mustJSON(st)}}
 }
@@ -269,6 +273,11 @@ func genWindows(g *Rng, tier string) *Plan {
 		}
 		if g.Bool(0.1) {
 			spec.QualAttrs = winNSDecls(g, x)
+		}
+		if g.Bool(0.3) {
+			for ai := range spec.Assertions {
+				spec.Assertions[ai].SessionNOA = i64(x + Pick(g, int64(8*3_600_000), 86_400_000, 60_000))
+			}
 		}
 		st.Spec = spec
 		p.Steps = append(p.Steps, mustJSON(st))
